@@ -618,10 +618,12 @@ structure Other where
   current : List Fl              -- the current value, row-major (only read when `asserts`)
   deriving DecidableEq, Repr
 
-/-- one element of `torch.allclose(a, b, atol=1e-4)` (`rtol` = 1e-5): `|a - b| ≤ atol + rtol·|b|`, equal infinities are
-    close, NaN is close to nothing.  Exact arithmetic on the float32 values (torch does it in float32: the two differ
-    only within an ulp of the threshold, a region the harness does not generate). -/
+/-- one element of `torch.allclose(a, b, atol=1e-4, equal_nan=True)` (`rtol` = 1e-5): `|a - b| ≤ atol + rtol·|b|`, equal
+    infinities are close, NaN is close to NaN only (`equal_nan=True` since the repair F30b: a file whose derived values
+    overflowed to nan on both sides reloads).  Exact arithmetic on the float32 values (torch does it in float32: the two
+    differ only within an ulp of the threshold, a region the harness does not generate). -/
 def closeFl : Fl → Fl → Bool
+  | .nan, .nan => true
   | .nan, _ => false
   | _, .nan => false
   | .inf a, .inf b => a == b
